@@ -225,12 +225,15 @@ class AsynchronousMemory(Logic):
         radd = self.read_address.get()
         wadd = self.write_address.get()
         
+        # the write is transparent (as the generated `always @(*) if (write) mem[..] = ..`),
+        # so it is done before reading: a read of the word being written sees the new
+        # value in the same evaluation, and evaluating again changes nothing
+        if (self.write.get()):
+            self.data[wadd] = self.writedata.get()
+            
         # always reading
         #print(f'reading address {add} = {self.data[add]}')
         self.readdata.put(self.data[radd])
-        
-        if (self.write.get()):
-            self.data[wadd] = self.writedata.get()
             
         
     def verilogBody(self):
